@@ -239,6 +239,52 @@ def driverflags(repo):
                         and isinstance(n.func.value, ast.Attribute) and isinstance(n.func.value.value, ast.Name) and n.func.value.value.id in parsed:
                     res.add(f"{m.rel}|{f.qualname}|rewrite|{n.func.value.attr}", f"{f.qualname} mutates the parsed option "
                             f"`{n.func.value.attr}` in place", m.rel, n.lineno, f.qualname)
+    # verbatim clause: what a driver hands to the shared entry points is the parsed option itself (flags.x or
+    # flags.x[0]), never a value computed from it -- embossc and the split drivers must give the front end the same
+    # module name (it becomes source_file_name, hence the include guard) and the same search path for one command line.
+    ENTRY = ("parse_and_log_errors", "generate_headers_and_log_errors", "Config")
+
+    def verbatim(e):
+        if isinstance(e, ast.Subscript) and isinstance(e.slice, ast.Constant):
+            e = e.value
+        return isinstance(e, ast.Attribute) and isinstance(e.value, ast.Name)
+
+    for dname, m in drivers.items():
+        for f in m.funcs.values():
+            bound = {}
+            for n in walk_no_nested_funcs(f.node):
+                if isinstance(n, ast.Assign) and len(n.targets) == 1 and isinstance(n.targets[0], ast.Name):
+                    bound.setdefault(n.targets[0].id, []).append(n.value)
+            flagvars = {k for k, v in bound.items() if any(isinstance(x, ast.Call) and (call_name(x) or "").endswith(
+                ("parse_args", "_parse_args", "_parse_command_line")) for x in v)} | {"flags"}
+
+            def from_flags(e, depth=0):
+                for x in ast.walk(e):
+                    if isinstance(x, ast.Attribute) and isinstance(x.value, ast.Name) and x.value.id in flagvars:
+                        return True
+                    if isinstance(x, ast.Name) and x.id in bound and x.id not in flagvars and depth < 3 \
+                            and any(from_flags(v, depth + 1) for v in bound[x.id]):
+                        return True
+                return False
+
+            for n in walk_no_nested_funcs(f.node):
+                if not (isinstance(n, ast.Call) and (call_name(n) or "").split(".")[-1] in ENTRY):
+                    continue
+                for a in list(n.args) + [k.value for k in n.keywords]:
+                    if not from_flags(a):
+                        continue
+                    res.instances += 1
+                    e = a
+                    if isinstance(e, ast.Name) and len(bound.get(e.id, ())) == 1 and e.id not in flagvars:
+                        e = bound[e.id][0]
+                    if isinstance(e, ast.Call) and (call_name(e) or "").split(".")[-1] in ENTRY:
+                        continue   # a Config built from flags is checked at its own call
+                    if not verbatim(e):
+                        res.add(f"{m.rel}|{f.qualname}|computed|{(call_name(n) or '').split('.')[-1]}",
+                                f"{f.qualname} hands `{ast.unparse(e)[:70]}` to {(call_name(n) or '').split('.')[-1]}: a value "
+                                "computed from a command-line option instead of the option itself; the other build path passes "
+                                "the option as typed, so the two paths compile different module names / search paths",
+                                m.rel, n.lineno, f.qualname)
     base = opts["embossc"]
     # options that reach compilation: flags.<dest> handed by embossc to the shared entry points
     shared = set()
